@@ -60,11 +60,120 @@ def _hist_class(inp, obs):
     return '%s %s %s' % (f[0], f[1] if f[0] == 'HIST' else 'P' + f[1], b)
 
 
+def _utf8_ok(h):
+    if h in ('_', '.'):
+        return True
+    try:
+        bytes.fromhex(h).decode('utf-8')
+        return True
+    except Exception:
+        return False
+
+
+def _claims_texts_utf8(tok):
+    """tok: the 13 claims tokens of a case line"""
+    ok = _utf8_ok(tok[6]) and _utf8_ok(tok[11])
+    if tok[0] == '1' and tok[1].startswith('s'):
+        ok = ok and _utf8_ok(tok[1][1:])
+    sw = tok[7]
+    if sw.startswith('['):
+        for comp in sw[1:-1].split(';'):
+            f = comp.split(',')
+            if len(f) == 5:
+                ok = ok and _utf8_ok(f[0]) and _utf8_ok(f[2]) and _utf8_ok(f[4])
+    return ok
+
+
+def _c09_oracle(inp, obs, extra):
+    """the property itself, evaluated on the implementation's observations of an RT case"""
+    f = inp.split(' ')
+    if f[0] != 'RT':
+        return None
+    o = obs.split(' ')
+    if len(o) < 12:
+        return None
+    # domain: claims-sets of a built-in profile (canonical name = the profile's own; a profile-2 set declares profile 2)
+    p1 = '5053415f494f545f50524f46494c455f31'
+    p2 = '687474703a2f2f61726d2e636f6d2f7073612f322e302e30'
+    if f[1] == '1' and f[13] != p1:
+        return None
+    if f[1] == '2' and (f[13] != p2 or f[2] != 's' + p2):
+        return None
+    orig, enc = o[:11], o[11]
+    valid = orig[0] == 'ok'
+    if enc == 'err':
+        return 'a valid claims-set failed to encode' if valid else None
+    if enc == 'panic':
+        return 'encoder panicked'
+    if len(o) < 13:
+        return None
+    if o[12] != 'ok':
+        return 'the encoder emitted bytes that the decoder rejects (%s)' % o[12]
+    dec_getters = o[12 + 1 + 13: 12 + 1 + 13 + 11]
+    if dec_getters != orig:
+        return 'getter results differ after decode(encode(c)): %s vs %s' % (' '.join(orig)[:200], ' '.join(dec_getters)[:200])
+    if valid and o[-1] != enc:
+        return 're-encoding a valid claims-set is not byte-stable'
+    return None
+
+
+def _c09_signature(v):
+    f = v['input'].split(' ')
+    if f[0] == 'RT' and len(f) >= 14 and not _claims_texts_utf8(f[1:14]) and 'rejects' in v.get('want', ''):
+        return 'K2'
+    return None
+
+
+def _c04_oracle(inp, obs, extra):
+    if not inp.startswith('DEC ') or 'lenient=1' not in extra:
+        return None
+    o = obs.split(' ')
+    if o[0] == 'ok' and len(o) > 14 and o[14] == 'ok':
+        return 'token accepted by decode-and-validate although a known key carries the wrong CBOR type (array for a byte string / simple value for an integer)'
+    return None
+
+
+def _c04_signature(v):
+    if v.get('kind') == 'oracle' and 'wrong CBOR type' in v.get('want', ''):
+        return 'K1'
+    return None
+
+
+WIRE_CONE = CLAIMS_CONE + ['theories/CborProofs.v', 'theories/WireProofs.v', 'theories/CodecProofs.v', 'theories/FormatProofs.v', 'ties/TieTags.v']
+EV_CONE = WIRE_CONE + ['theories/EvidenceProofs.v']
+
 PROPS = {
+    'C03': dict(
+        cone=EV_CONE, level='proof', kernel_maxlen=9000,
+        nontrivial=lambda i, o: True, classify=lambda i, o: 'key=%s P%s %s' % (i.split(' ')[1], i.split(' ')[2], o.split(' ')[0]),
+        rule='valid claims-sets of both profiles (random optional-claim subsets, hash sizes, 1..4 components) x five real keys (ES256 x2, ES384, EdDSA, PS256): ValidateAndSign, envelope taken apart by an independent CBOR item splitter (protected-header content and payload compared byte for byte with the model), DecodeEvidenceFromCOSE, claims compared field by field, Verify with the matching key (fresh and signing Evidence) and with another key; plus invalid claims-sets (must fail); distinct = distinct input line',
+        assumptions=['signatures idealised: SigBy k alg prot payload verifies exactly under key k / alg over that protected header and payload'],
+    ),
+    'C04': dict(
+        cone=WIRE_CONE, level='proof', oracle=_c04_oracle, signature=_c04_signature, kernel_maxlen=6000,
+        nontrivial=lambda i, o: not o.startswith('ok') or ' e' in o, classify=lambda i, o: o.split(' ')[0],
+        rule='tokens assembled by an independent CBOR writer: per claim key every value class (absent, null, undefined, booleans, simple values, floats of all widths, integers at every width boundary incl. 2^31, 2^32, 2^63, 2^64-1 and negative counterparts, non-preferred heads, byte strings of 14 lengths, texts incl. invalid UTF-8, arrays / maps / nested, tagged forms, indefinite lengths) with the rest valid; the other profile\'s keys mixed in; permuted key order; unknown extra keys (int, text, huge uint, byte-string / array / bool / float keys); duplicates; trailing and truncated bytes; pairs of deviations; non-map top-level items; non-trivial = rejected or some getter failing',
+    ),
+    'C08': dict(
+        cone=EV_CONE, level='proof', kernel_maxlen=6000,
+        nontrivial=lambda i, o: 'err' in o or ' e' in o, classify=lambda i, o: i.split(' ')[0] + ' ' + o.split(' ')[0][:3],
+        rule='every C01 claims-set (valid and each kind of invalid) through ValidateAndEncodeClaimsToCBOR vs EncodeClaimsToCBOR, Evidence.SetClaims (result and whether anything was attached), ValidateAndSign (result, no token on failure, payload = plain encoding); every C04 token through DecodeAndValidateClaimsFromCBOR vs DecodeClaimsFromCBOR and DecodeAndValidateEvidenceFromCOSE vs DecodeEvidenceFromCOSE; non-trivial = some gate refused',
+    ),
+    'C10': dict(
+        cone=WIRE_CONE, level='proof', kernel_maxlen=6000,
+        nontrivial=lambda i, o: True, classify=lambda i, o: i.split(' ')[0],
+        rule='valid claims-sets of both profiles built directly, through randomly ordered setter histories (with rejected calls interleaved) and by decoding; the emitted bytes are compared byte for byte with the model encoder, whose output format is proved (single definite map, distinct specified keys, values of the specified types, no null for a valid set) and which is re-read by the Coq CBOR parser',
+    ),
+    'C19': dict(
+        cone=EV_CONE, level='proof', kernel_maxlen=12000,
+        nontrivial=lambda i, o: ' err ' in o, classify=lambda i, o: 'ops=%d' % ((len(i.split(' ')) - 41) // 10 * 10),
+        rule='random histories of 2..31 operations on one Evidence over {SetClaims(valid|invalid), Sign, ValidateAndSign, UnmarshalCOSE(own token | token with substituted payload | token with another token\'s signature | undecodable payload | nil payload | empty protected header | garbage), Verify(5 keys)} with signer faults (error, empty signature, unknown algorithm id, algorithm that does not fit the key) and real ES256/ES384/EdDSA/PS256 keys; observed after every operation: result and the attached claims; non-trivial = some operation failed',
+        assumptions=['signatures idealised (see C03)'],
+    ),
     'C09': dict(
-        cone=CLAIMS_CONE + ['ties/TieTags.v'], level='proof',
-        nontrivial=lambda i, o: True, classify=lambda i, o: 'P%s %s' % (i.split(' ')[1], o.split(' ')[0][:3]),
-        rule='TODO',
+        cone=WIRE_CONE, level='proof', oracle=_c09_oracle, signature=_c09_signature, kernel_maxlen=9000,
+        nontrivial=lambda i, o: not o.startswith('ok'), classify=lambda i, o: 'P%s valid=%s' % (i.split(' ')[1], o.split(' ')[0][:2]),
+        rule='valid claims-sets of both profiles (generator of C03) and directly constructed invalid ones (1..2 deviations from the C01 alternatives, incl. invalid UTF-8 texts): EncodeClaimsToCBOR, DecodeClaimsFromCBOR of the result, all getters before and after, re-encode; the property is evaluated on the implementation (oracle) and every observation is compared with the model; non-trivial = the input claims-set is not valid',
     ),
     'C11': dict(
         cone=CLAIMS_CONE + ['theories/SetterProofs.v'], level='proof',
@@ -133,7 +242,15 @@ def compare(pid, spec, cases_p, model_p, result, tier):
                 continue
             inp, obs = cl.split('\t', 1)
             gen, _, want = ml.partition('\t')
+            gen = gen.partition(' ## ')[0]
+            want, _, extra = want.partition(' ## ')
             n += 1
+            oracle = spec.get('oracle')
+            if oracle:
+                why = oracle(inp, obs, extra)
+                if why:
+                    result['violations'].append(dict(input=inp, impl=obs, want=why, kind='oracle'))
+                    continue
             if want == '?' or gen == '?':
                 result['violations'].append(dict(input=inp, impl=obs, want='model could not parse this input (harness/model format drift)', kind='format'))
                 continue
